@@ -257,6 +257,8 @@ type Service struct {
 	// BeforeAccept, if set, runs after the register was read and before the answer (if any) is
 	// written: what a hostile service sends ahead of its accept.
 	BeforeAccept func(sc *SvcConn, mode string)
+	// AfterAccept runs right after the answer to the register was written.
+	AfterAccept func(sc *SvcConn, mode string)
 	lastValidAccept *client.AcceptRegister
 }
 
@@ -371,7 +373,7 @@ func (s *Service) handleRegister(sc *SvcConn, reg *client.Register) {
 	if !reg.Key.Equal(s.cs.ClientKey.PublicKey()) {
 		sc.RegValid = false
 		sc.RegProblem = "key is not the configured client key"
-	} else if sh, err := reg.SigHash(); err != nil {
+	} else if sh, err := refRegisterSigHash(reg); err != nil {
 		sc.RegValid = false
 		sc.RegProblem = "sig hash: " + err.Error()
 	} else if !reg.Signature.Verify(*sh, reg.Key) {
@@ -402,6 +404,9 @@ func (s *Service) handleRegister(sc *SvcConn, reg *client.Register) {
 		s.lastValidAccept = acc
 	}
 	sc.Send(acc)
+	if s.AfterAccept != nil {
+		s.AfterAccept(sc, mode)
+	}
 }
 
 // buildAccept creates an AcceptRegister; for every mode except "valid" it is forged in one way.
@@ -435,7 +440,7 @@ func (s *Service) buildAccept(hash bitcoin.Hash32, mode string) *client.AcceptRe
 		}
 		signer = s.cs.OtherKey
 	}
-	sh, err := acc.SigHash(signHash)
+	sh, err := refAcceptSigHash(acc, signHash)
 	if err != nil {
 		return nil
 	}
@@ -445,9 +450,62 @@ func (s *Service) buildAccept(hash bitcoin.Hash32, mode string) *client.AcceptRe
 	}
 	acc.Signature = sig
 	if mode == "altered-counts" { // signature over other counts than the ones sent
-		acc.MessageCount++
+		switch s.cs.c.Scen.Choose(3) {
+		case 0:
+			acc.MessageCount++
+		case 1:
+			acc.UTXOCount += 5000
+		default:
+			acc.PushDataCount++
+		}
 	}
 	return acc
+}
+
+// refVarInt is the Bitcoin variable length integer, written here independently of the code under
+// test.
+func refVarInt(v uint64) []byte {
+	switch {
+	case v < 0xfd:
+		return []byte{byte(v)}
+	case v <= 0xffff:
+		return []byte{0xfd, byte(v), byte(v >> 8)}
+	case v <= 0xffffffff:
+		return []byte{0xfe, byte(v), byte(v >> 8), byte(v >> 16), byte(v >> 24)}
+	}
+	out := []byte{0xff}
+	for i := 0; i < 8; i++ {
+		out = append(out, byte(v>>(8*i)))
+	}
+	return out
+}
+
+// refAcceptSigHash: what an accept register message's signature covers, written from the protocol
+// description and not through the client's own SigHash: the session key, the three counts and the
+// client's per-connection hash, double SHA-256.
+func refAcceptSigHash(acc *client.AcceptRegister, h bitcoin.Hash32) (*bitcoin.Hash32, error) {
+	var buf []byte
+	buf = append(buf, acc.Key.Bytes()...)
+	buf = append(buf, refVarInt(acc.PushDataCount)...)
+	buf = append(buf, refVarInt(acc.UTXOCount)...)
+	buf = append(buf, refVarInt(acc.MessageCount)...)
+	buf = append(buf, h[:]...)
+	out := dsha(buf)
+	return &out, nil
+}
+
+// refRegisterSigHash: version, client key, connection hash, start block height (little endian),
+// chain tip, connection type.
+func refRegisterSigHash(reg *client.Register) (*bitcoin.Hash32, error) {
+	var buf []byte
+	buf = append(buf, reg.Version)
+	buf = append(buf, reg.Key.Bytes()...)
+	buf = append(buf, reg.Hash[:]...)
+	buf = append(buf, byte(reg.StartBlockHeight), byte(reg.StartBlockHeight>>8), byte(reg.StartBlockHeight>>16), byte(reg.StartBlockHeight>>24))
+	buf = append(buf, reg.ChainTip[:]...)
+	buf = append(buf, byte(reg.ConnectionType))
+	out := dsha(buf)
+	return &out, nil
 }
 
 // WrittenMsg is a message found in the bytes the client wrote to a connection.
